@@ -953,8 +953,13 @@ func (c *Conn) handleData(arg string) {
 	r := newDataReader(c)
 	code, enhancedCode, msg := dataErrorToStatus(c.Session().Data(r))
 	r.limited = false
-	io.Copy(ioutil.Discard, r) // Make sure all the data has been consumed
+	_, drainErr := io.Copy(ioutil.Discard, r) // Make sure all the data has been consumed
 	c.writeResponse(code, enhancedCode, msg)
+	if drainErr != nil {
+		// The end of the message was not reached (timeout, connection
+		// error): what follows in the stream is not a command.
+		c.Close()
+	}
 }
 
 func (c *Conn) handleBdat(arg string) {
@@ -1204,11 +1209,11 @@ func (c *Conn) handleDataLMTP() {
 		// Fallback to using a single status for all recipients.
 		err := c.Session().Data(r)
 		r.limited = false
-		io.Copy(ioutil.Discard, r) // Make sure all the data has been consumed
+		_, drainErr := io.Copy(ioutil.Discard, r) // Make sure all the data has been consumed
 		for _, rcpt := range c.recipients {
 			status.SetStatus(rcpt, err)
 		}
-		done <- true
+		done <- drainErr == nil
 	} else {
 		go func() {
 			defer func() {
@@ -1227,8 +1232,8 @@ func (c *Conn) handleDataLMTP() {
 
 			status.fillRemaining(lmtpSession.LMTPData(r, status))
 			r.limited = false
-			io.Copy(ioutil.Discard, r) // Make sure all the data has been consumed
-			done <- true
+			_, drainErr := io.Copy(ioutil.Discard, r) // Make sure all the data has been consumed
+			done <- drainErr == nil
 		}()
 	}
 
@@ -1237,8 +1242,9 @@ func (c *Conn) handleDataLMTP() {
 		c.writeResponse(code, enchCode, "<"+rcpt+"> "+msg)
 	}
 
-	// If done gets false, the panic occured in LMTPData and the connection
-	// should be closed.
+	// If done gets false, the panic occured in LMTPData or the end of the
+	// message was not reached (timeout, connection error): what follows in
+	// the stream is not a command and the connection should be closed.
 	if !<-done {
 		c.Close()
 	}
